@@ -76,6 +76,7 @@ func checkC11(c *km.Ctx) {
 				r.Add("R-C11-4", km.FuncName(fn), "family constant (verifier)", posOf(c, ci), "bytes.Equal(entry.AddressFamily, ipV4FamilyEncoding)", km.ValStr(a[0])+" vs "+km.ValStr(a[1]), ok)
 			}
 		}
+		checkFamilyBeforeDecode(c, s, fn, "R-C11-4")
 	}
 	checkIPRestrictedHelper(c, s, "R-C11-1")
 	if fn := c.P.Func("lib/certgen", "VerifyIPRestrictedX509CertIP"); fn != nil {
@@ -153,6 +154,7 @@ func checkC11(c *km.Ctx) {
 				r.Add("R-C11-4", km.FuncName(fn), "family constant (extractor)", posOf(c, ci), "bytes.Equal(entry.AddressFamily, ipV4FamilyEncoding)", km.ValStr(a[0])+" vs "+km.ValStr(a[1]), ok)
 			}
 		}
+		checkFamilyBeforeDecode(c, s, fn, "R-C11-4")
 		// every returned netblock comes from the decoder
 		nApp := 0
 		for _, ci := range km.CallsIn(fn) {
@@ -942,4 +944,30 @@ func extractorHelper(c *km.Ctx, s *km.Sem, ec *ssa.Call, idx int) *ssa.Function 
 		return nil
 	}
 	return g
+}
+
+// checkFamilyBeforeDecode: only the blocks of the IPv4 family are read as IPv4 netblocks: every call of the prefix
+// decoder is reached with entry.AddressFamily == ipV4FamilyEncoding established (a short prefix of another family
+// would otherwise widen access: an IPv6 ::/0 read as 0.0.0.0/0).
+func checkFamilyBeforeDecode(c *km.Ctx, s *km.Sem, fn *ssa.Function, rule string) {
+	fam := km.Prim{Name: "family == ipv4", Direct: func(f km.Fact) bool {
+		cl, ok := f.X.(*ssa.Call)
+		if !ok || f.Op != token.ILLEGAL || !f.Pol || km.CalleeFull(cl.Common()) != "bytes.Equal" {
+			return false
+		}
+		a := cl.Common().Args
+		return (mentionsField(a[0], "AddressFamily") && isGlobalLoad(a[1], "ipV4FamilyEncoding")) || (mentionsField(a[1], "AddressFamily") && isGlobalLoad(a[0], "ipV4FamilyEncoding"))
+	}}
+	n := 0
+	for _, ci := range callsWithNewHelpers(c, fn, 1) {
+		if km.CalleeFull(ci.Common()) != certgenPkg+".decodeIPV4AddressChoice" {
+			continue
+		}
+		n++
+		ok, _ := s.HoldsOnAllPaths(ci, allPrims(s, fam), map[*ssa.Function]bool{fn: true}, 2)
+		c.R.Add(rule, km.FuncName(fn), "address family before decoding", posOf(c, ci), "the block's family is the IPv4 family constant on every path to the decoder", sprintf("%v", ok), ok)
+	}
+	if n == 0 {
+		c.R.AnchorLost(rule, "prefix decoder call in "+km.NameOf(fn))
+	}
 }
